@@ -20,6 +20,7 @@ func main() {
 	pool.Register("c14", c14Worker)
 	pool.Register("c07", c07Worker)
 	pool.Register("c08", c08Worker)
+	pool.Register("c07s", scriptWorker)
 	pool.WorkerMain()
 	if len(os.Args) < 2 {
 		fmt.Fprintln(os.Stderr, "usage: clustermc C14|C07|C08 | replay <file>")
@@ -199,6 +200,36 @@ func runC07() int {
 		}
 		return nil
 	})
+	// scripted fault families (scripts.go)
+	ps := &pool.Pool{Handler: "c07s", N: 16, Timeout: 120 * time.Second, MemMB: 6144, MaxTasks: 1}
+	var stasks [][]byte
+	for _, sc := range scripts(tier) {
+		b, _ := json.Marshal(scriptTask{Script: sc})
+		stasks = append(stasks, b)
+	}
+	scriptRuns := 0
+	ps.Map(stasks, func(tb, out []byte, crash *pool.Crash) [][]byte {
+		var t scriptTask
+		json.Unmarshal(tb, &t)
+		if crash != nil {
+			rep.Add(&ev.Violation{Engine: "clustermc", Kind: "worker-" + crash.Kind, Cmd: t.Script.name(), Shape: t.Script.Family,
+				Detail: fmt.Sprintf("worker %s: %s", crash.Kind, crash.Detail), Replay: map[string]interface{}{"engine": "clustermc", "script": t.Script}})
+			return nil
+		}
+		var r c07Result
+		json.Unmarshal(out, &r)
+		scriptRuns += r.Runs
+		runs += r.Runs
+		deviating += r.Deviating
+		if r.Sample != "" && len(samples) < 8 {
+			samples = append(samples, r.Sample)
+		}
+		for _, v := range r.Viol {
+			rep.Add(&ev.Violation{Engine: "clustermc", Kind: v.Kind, Cmd: v.Cmd, Shape: v.Shape, Detail: v.Detail,
+				Replay: map[string]interface{}{"engine": "clustermc", "prop": "C07", "run": v.Program, "script": t.Script}})
+		}
+		return nil
+	})
 	raceReps := 5
 	if tier == "thorough" {
 		raceReps = 40
@@ -216,12 +247,14 @@ func runC07() int {
 		"deviation_bound":     bound,
 		"tasks_truncated":     truncated,
 		"workloads":           len(c07Workloads()),
+		"scripted_fault_runs": scriptRuns,
+		"scripted_families":   "stale-leader-tail (leader isolated with 1..k unreplicated entries, new leader acknowledges 1..k writes, heal, restarts of {none, old leader, all, new leader}); follower-lag (follower isolated over 1..k writes, heal, restarts); remove-node (rconf delete of every node id through every node, before / after a write, local-shortcut and replicated spelling, then two more writes and reads on the remaining nodes)",
 		"race_pass_ran":       raceRan,
 		"race_pass_runs":      raceRuns,
 		"race_reports":        raceReports,
 	}
 	return rep.Finish(cov, []string{
-		"rafthttp transport, the raft.Node channel wrapper, OS-level kill and TCP are replaced by the simulator; membership changes are not exercised (un-started transport)",
+		"rafthttp transport, the raft.Node channel wrapper, OS-level kill and TCP are replaced by the simulator; membership changes: removal of a node only (scripted family), the transport's peers are stubs",
 		"a node crash is a process crash: everything written to files survives (sector loss is C16's fault model)",
 	})
 }
@@ -288,19 +321,56 @@ func runC08() int {
 		}
 		return nil
 	})
+	// scripted partition + restart families (scripts.go): a leader cut off with an unreplicated tail,
+	// a follower cut off over several writes; heal; restarts of the old leader / everybody / a follower
+	ps := &pool.Pool{Handler: "c07s", N: 16, Timeout: 120 * time.Second, MemMB: 6144, MaxTasks: 1}
+	var stasks [][]byte
+	for _, sc := range scripts(tier) {
+		if sc.Family == "remove-node" {
+			continue
+		}
+		b, _ := json.Marshal(scriptTask{Script: sc})
+		stasks = append(stasks, b)
+	}
+	scriptRuns := 0
+	ps.Map(stasks, func(tb, out []byte, crash *pool.Crash) [][]byte {
+		var t scriptTask
+		json.Unmarshal(tb, &t)
+		if crash != nil {
+			crashesW++
+			rep.Add(&ev.Violation{Engine: "clustermc", Kind: "worker-" + crash.Kind, Cmd: t.Script.name(), Shape: t.Script.Family,
+				Detail: fmt.Sprintf("worker %s: %s", crash.Kind, crash.Detail), Replay: map[string]interface{}{"engine": "clustermc", "script": t.Script}})
+			return nil
+		}
+		var r c07Result
+		json.Unmarshal(out, &r)
+		scriptRuns += r.Runs
+		runs += r.Runs
+		crashes += r.Runs
+		if r.Sample != "" && len(samples) < 8 {
+			samples = append(samples, r.Sample)
+		}
+		for _, v := range r.Viol {
+			rep.Add(&ev.Violation{Engine: "clustermc", Kind: v.Kind, Cmd: v.Cmd, Shape: v.Shape, Detail: v.Detail,
+				Replay: map[string]interface{}{"engine": "clustermc", "prop": "C08", "script": t.Script}})
+		}
+		return nil
+	})
 	if len(samples) == 0 {
 		samples = []string{"(no crash run)"}
 	}
 	cov := map[string]interface{}{
-		"evaluations":             runs,
-		"distinct_nontrivial":     crashes,
-		"rule":                    "history of acknowledged writes (strings, counter, list, set, hash, delete) on 1- and 3-node in-process clusters with (snapshot threshold, catch-up) in {(inf,inf),(2,1),(3,2),(3,3)}; every crash opportunity = every event boundary of the default schedule + every fsync/fdatasync callback inside the real Ready handling, x every non-empty node subset (containing the node whose Ready is interrupted) x restart orders; after restart + stabilise every key is read on every node and must reflect the acknowledged prefix (the write in flight may or may not be there). Non-trivial = runs in which a crash was injected",
-		"samples":                 samples,
-		"exhaustive":              crashesW == 0,
-		"configurations":          len(cfgs),
-		"writes":                  writes,
-		"crashes_at_sync_points":  syncCrashes,
-		"runs_ending_with_snapshot": snaps,
+		"evaluations":                     runs,
+		"distinct_nontrivial":             crashes,
+		"rule":                            "history of acknowledged writes (strings, counter, list, set, hash, delete) on 1- and 3-node in-process clusters with (snapshot threshold, catch-up) in {(inf,inf),(2,1),(3,2),(3,3)}; every crash opportunity = every event boundary of the default schedule + every fsync/fdatasync callback inside the real Ready handling, x every non-empty node subset (containing the node whose Ready is interrupted) x restart orders; after restart + stabilise every key is read on every node and must reflect the acknowledged prefix (the write in flight may or may not be there). Non-trivial = runs in which a crash was injected",
+		"samples":                         samples,
+		"exhaustive":                      crashesW == 0,
+		"configurations":                  len(cfgs),
+		"writes":                          writes,
+		"crashes_at_sync_points":          syncCrashes,
+		"runs_ending_with_snapshot":       snaps,
+		"scripted_partition_restart_runs": scriptRuns,
+		"durability_invariant":            "after every Ready that changes term, vote or log, a copy of the node's directory is restarted through replayWAL and must recover the live term, vote and log",
 	}
 	return rep.Finish(cov, []string{
 		"a crash is a process crash (files keep everything written); sector-level loss of unsynced data is C16's fault model",
